@@ -75,7 +75,18 @@ def generate(rng, tier):
     for i, r in enumerate(rl):
         frames = 40 if tier == 'quick' else 200
         cases.append(('rom%d' % i, ['sys.rom %s 1' % sysgen.enc(r), 'sys.frame %d' % frames, 'sys.serial', 'sys.get']))
-    info = dict(input_distribution=dict(bus_histories=nb, programs=nb, roms=len(rl)),
+    # through the real gameboy.New / runFrame: a program streaming bytes to SB, with a writer and with none configured
+    ngb = 0
+    for ser in (1, 0, 1, 0):
+        lines = ['gb.newloop 0 %d 0 0 0 0 %d' % (rng.choice([0, 1, 19]), ser)]
+        # LD A,41; loop: LDH (01),A; INC A; CP 5B; JR C,loop; JR start
+        for j, b in enumerate([0x3e, 0x41, 0xe0, 0x01, 0x3c, 0xfe, 0x5b, 0x38, 0xf9, 0x18, 0xf5]):
+            lines.append('gb.w 0 %d %d' % (0xc000 + j, b))
+        lines += ['gb.set 0 1 2 3 4 5 0 6 7 57343 49152', 'gb.cyc 0 %d' % rng.randrange(1, 300), 'gb.serial 0', 'gb.frames 0 1', 'gb.serial 0', 'gb.obs 0',
+                  'gb.r 0 65281', 'gb.r 0 65282']
+        cases.append(('gbser%d' % ngb, lines))
+        ngb += 1
+    info = dict(input_distribution=dict(bus_histories=nb, programs=nb, roms=len(rl), machines_through_New=ngb),
                 samples=[dict(case=cases[nb][0], script=cases[nb][1][:30])])
     return cases, info
 
